@@ -18,6 +18,10 @@ def run(tier, seed):
     # non-zero constant term (consistent with its commitments); reconstruction from four and more points (t = 3: n = 7)
     dirs = [D("dss", 4, 1, [0, 6, 0, 0], 31), D("dss", 4, 1, [6, 0, 0, 0], 32), D("dss", 5, 2, [0, 0, 6, 0, 0], 33), D("dss", 5, 1, [0, 0, 0, 0, 6], 34),
             D("dkg", 7, 3, [1, 0, 0, 0, 0, 0, 0], 35), D("dkg", 7, 3, [0, 0, 0, 1, 0, 0, 0], 36), D("dkg", 7, 3, [0, 0, 0, 0, 0, 0, 1], 37), D("dkg", 7, 2, [0, 1, 0, 0, 0, 1, 0], 38)]
+    # the two executions that showed finding F20 (extraction-phase complaints of GJKR judged with wrong values: in a small group
+    # one honest party sees the check "hold" by coincidence, blames the complainer and ends alone)
+    dirs += [D("dkg", 6, 2, [0, 0, 0, 0, 0, 1], 13360, gi=0, grp=(2063, 1031, 64, 597)),
+             dict(D("dkg", 7, 3, [0, 1, 0, 0, 0, 0, 0], 13298, gi=0, grp=(2063, 1031, 25, 623)), rnd=False)]
     if not q:
         dirs += [D("dss", n, t, [6 if k == w else 0 for k in range(n)], 40 + 7 * n + w) for n, t in ((6, 2), (7, 3), (7, 2)) for w in range(n)]
         dirs += [D("dkg", 7, 3, [1 if k == w else 0 for k in range(7)], 100 + w + 10 * sd) for w in range(7) for sd in range(4)]
